@@ -22,6 +22,9 @@ pub fn c03(tier: Tier) -> Vec<Case> {
         // @memoize needs Clone
         let has_memo = g.rules.iter().any(|r| r.flags().memoize || r.flags().leftrec);
         let d = if has_memo && d.as_ref().map(|v| !v.iter().any(|x| x == "Clone")).unwrap_or(false) { None } else { d };
+        // the harness' check functions print their argument (T: Debug): grammars with @check get a set with Debug
+        let has_check = g.rules.iter().any(|r| r.directives.iter().any(|x| matches!(x, Directive::Check(_))));
+        let d = if has_check && d.as_ref().map(|v| !v.iter().any(|x| x == "Debug")).unwrap_or(false) { None } else { d };
         if b.add(family, g, none.clone()) {
             b.last().derives = d;
             n += 1;
